@@ -1,5 +1,5 @@
 import Verif.Model.C09SvgText
-import Verif.Proofs.C09XmlLex
+import Verif.Proofs.C09XmlLexSound
 /-!
 # C09 (SVG) — the per-token writers of `svg.go` write well-formed character data, CDATA sections and attribute
 value literals; what is demanded of the CSS sub-minifier (contracts) and that a white-space-removing sub-minifier
@@ -14,7 +14,7 @@ open Verif.Spec.Xml
 open Verif.Model.Xml
 open Verif.Model.C09SvgText
 open Verif.Proofs.Xml
-open Verif.Proofs.C09XmlLex (wfText_ne_nil)
+open Verif.Proofs.C09XmlLex (wfText_ne_nil drop_takeWhile)
 open Verif.Gen
 
 /-! ## `bracketWriter` -/
@@ -282,5 +282,342 @@ theorem scan_ws_units (rv : List (Char × List Char)) (hrv : RevOk rv) (n : Nat)
         obtain ⟨us2, e1, e2⟩ := ih r (by omega) hok.2
         refine ⟨u' :: us2, ?_, by simp [s2, e2]⟩
         rw [flat_cons, s1, e1, flat_cons]
+
+/-! ## `isCharData` of svg.go -/
+
+/-- a byte that the rewrites of character data (`escapeCDEnd`, `EscapeAttrVal`) pass through and that is no markup -/
+def Inert (c : Char) : Prop := c ≠ ']' ∧ c ≠ '>' ∧ c ≠ '"' ∧ c ≠ '\'' ∧ c ≠ '<' ∧ c ≠ '&'
+
+theorem inert_hex (c : Char) (h : isHexDigit c = true) : Inert c := by
+  refine ⟨?_, ?_, ?_, ?_, ?_, ?_⟩ <;> (intro hc; subst hc; revert h; decide)
+
+theorem inert_dig (c : Char) (h : isDigit c = true) : Inert c := by
+  refine ⟨?_, ?_, ?_, ?_, ?_, ?_⟩ <;> (intro hc; subst hc; revert h; decide)
+
+theorem inert_name (c : Char) (h : refLen.refNameChar c = true) : Inert c := by
+  refine ⟨?_, ?_, ?_, ?_, ?_, ?_⟩ <;> (intro hc; subst hc; revert h; decide)
+
+theorem refName_spec (c : Char) (h : refLen.refNameChar c = true) : isNameChar c = true := by
+  simp only [refLen.refNameChar, Bool.or_eq_true, Bool.and_eq_true, decide_eq_true_eq, beq_iff_eq] at h
+  simp only [isNameChar, isAl, isDig, Bool.or_eq_true, Bool.and_eq_true, decide_eq_true_eq, beq_iff_eq]
+  simp only [isDigit, Bool.and_eq_true, decide_eq_true_eq] at h
+  rcases h with ((((((h | h) | h) | h) | h) | h) | h) | h
+  · exact Or.inl (Or.inl (Or.inl (Or.inl (Or.inl (Or.inl (Or.inl h))))))
+  · exact Or.inl (Or.inl (Or.inl (Or.inl (Or.inl (Or.inl (Or.inr h))))))
+  · exact Or.inl (Or.inl (Or.inr h))
+  · exact Or.inl (Or.inr h)
+  · exact Or.inr h
+  · exact Or.inl (Or.inl (Or.inl (Or.inl (Or.inl (Or.inr h)))))
+  · exact Or.inl (Or.inl (Or.inl (Or.inr h)))
+  · exact Or.inl (Or.inl (Or.inl (Or.inl (Or.inr h))))
+
+/-- what `refLen r = some k` means: `r` starts with a reference body of inert bytes and `;`; any continuation
+behind that `;` is a complete reference for `isCharData` and for the specification decoder alike -/
+theorem refLen_some (r : List Char) (k : Nat) (h : refLen r = some k) :
+    ∃ body rest, r = body ++ ';' :: rest ∧ k = body.length + 1 ∧ (∀ c ∈ body, Inert c) ∧
+      (∀ Y, refLen (body ++ ';' :: Y) = some k) ∧ (∃ d, d ≠ DCh.bad ∧ ∀ Y, specRef (body ++ ';' :: Y) = some (d, k)) := by
+  unfold refLen at h
+  split at h
+  · next r2 =>
+    -- hexadecimal
+    simp only at h
+    split at h
+    · cases h
+    · next hne =>
+      split at h
+      · next rest heq =>
+        simp only [Option.some.injEq] at h
+        rw [drop_takeWhile] at heq
+        have hall : ∀ c ∈ r2.takeWhile isHexDigit, isHexDigit c = true := fun c hc => mem_takeWhile_imp' _ _ _ hc
+        have hsplit : r2 = r2.takeWhile isHexDigit ++ ';' :: rest := by
+          conv => lhs; rw [← List.takeWhile_append_dropWhile (p := isHexDigit) (l := r2), heq]
+        generalize r2.takeWhile isHexDigit = ds at *
+        have hds : ds ≠ [] := by simpa using hne
+        refine ⟨'#' :: 'x' :: ds, rest, by rw [hsplit]; simp, by simp [← h], ?_, ?_, ?_⟩
+        · intro c hc
+          simp only [List.mem_cons] at hc
+          rcases hc with rfl | rfl | hc
+          · refine ⟨?_, ?_, ?_, ?_, ?_, ?_⟩ <;> decide
+          · refine ⟨?_, ?_, ?_, ?_, ?_, ?_⟩ <;> decide
+          · exact inert_hex c (hall c hc)
+        · intro Y
+          have ht : (ds ++ ';' :: Y).takeWhile isHexDigit = ds := takeWhile_append_stop _ ds ';' Y hall (by decide)
+          simp only [List.cons_append, refLen, ht, drop_length_append]
+          simp [hds, ← h]
+        · refine ⟨DCh.c (numVal 16 ds), by simp, fun Y => ?_⟩
+          have := specRef_hex ds Y hds hall
+          simpa [← h] using this
+      · cases h
+  · next r2 hnx =>
+    -- decimal
+    simp only at h
+    split at h
+    · cases h
+    · next hne =>
+      split at h
+      · next rest heq =>
+        simp only [Option.some.injEq] at h
+        rw [drop_takeWhile] at heq
+        have hall : ∀ c ∈ r2.takeWhile isDigit, isDigit c = true := fun c hc => mem_takeWhile_imp' _ _ _ hc
+        have hsplit : r2 = r2.takeWhile isDigit ++ ';' :: rest := by
+          conv => lhs; rw [← List.takeWhile_append_dropWhile (p := isDigit) (l := r2), heq]
+        generalize r2.takeWhile isDigit = ds at *
+        have hds : ds ≠ [] := by simpa using hne
+        refine ⟨'#' :: ds, rest, by rw [hsplit]; simp, by simp [← h], ?_, ?_, ?_⟩
+        · intro c hc
+          simp only [List.mem_cons] at hc
+          rcases hc with rfl | hc
+          · refine ⟨?_, ?_, ?_, ?_, ?_, ?_⟩ <;> decide
+          · exact inert_dig c (hall c hc)
+        · intro Y
+          have ht : (ds ++ ';' :: Y).takeWhile isDigit = ds := takeWhile_append_stop _ ds ';' Y hall (by decide)
+          cases ds with
+          | nil => exact absurd rfl hds
+          | cons d0 ds' =>
+            have hd0 : d0 ≠ 'x' := by
+              intro hx; subst hx
+              have := hall 'x' (by simp)
+              revert this; decide
+            unfold refLen
+            split
+            · next r3 heq3 => simp only [List.cons_append, List.cons.injEq, true_and] at heq3; exact absurd heq3.1 hd0
+            · next r3 _ heq3 =>
+              simp only [List.cons_append, List.cons.injEq, true_and] at heq3
+              subst heq3
+              simp only [List.cons_append] at ht
+              simp only [ht]
+              have := drop_length_append (d0 :: ds') (';' :: Y)
+              simp only [List.cons_append] at this
+              simp [← h]
+            · next _ hno2 => exact (hno2 _ rfl).elim
+        · refine ⟨DCh.c (numVal 10 ds), by simp, fun Y => ?_⟩
+          have := specRef_dec ds Y hds hall
+          simpa [← h] using this
+      · cases h
+  · next hn1 hn2 =>
+    -- named
+    simp only at h
+    split at h
+    · cases h
+    · next c nm' hnm =>
+      split at h
+      · cases h
+      · next hstart =>
+        split at h
+        · next rest heq =>
+          simp only [Option.some.injEq] at h
+          rw [drop_takeWhile] at heq
+          have hall : ∀ x ∈ r.takeWhile refLen.refNameChar, refLen.refNameChar x = true :=
+            fun x hx => mem_takeWhile_imp' _ _ _ hx
+          have hsplit : r = r.takeWhile refLen.refNameChar ++ ';' :: rest := by
+            conv => lhs; rw [← List.takeWhile_append_dropWhile (p := refLen.refNameChar) (l := r), heq]
+          rw [hnm] at hall hsplit h
+          have hst : refLen.refNameStart c = true := by simpa using hstart
+          have hc : c ≠ '#' := by intro hx; subst hx; revert hst; decide
+          refine ⟨c :: nm', rest, hsplit, by simp [← h], fun x hx => inert_name x (hall x hx), ?_, ?_⟩
+          · intro Y
+            have ht : ((c :: nm') ++ ';' :: Y).takeWhile refLen.refNameChar = c :: nm' :=
+              takeWhile_append_stop _ _ ';' Y hall (by decide)
+            unfold refLen
+            split
+            · next r3 heq3 => simp only [List.cons_append, List.cons.injEq] at heq3; exact absurd heq3.1 hc
+            · next r3 _ heq3 => simp only [List.cons_append, List.cons.injEq] at heq3; exact absurd heq3.1 hc
+            · simp only [ht, hstart, drop_length_append]
+              simp [← h]
+          · refine ⟨XUnit.val false (.named (c :: nm')), ?_, fun Y => ?_⟩
+            · simp only [XUnit.val]; cases predefined (c :: nm') <;> simp
+            · have := specRef_named (c :: nm') Y (by simp) (fun x hx => refName_spec x (hall x hx))
+              simpa [← h] using this
+        · cases h
+
+
+theorem isCD_skip (k : Nat) (l : List Char) : isCharDataGo k l = isCharDataGo 0 (l.drop k) := by
+  induction k generalizing l with
+  | zero => simp
+  | succ k ih =>
+    cases l with
+    | nil => simp [isCharDataGo]
+    | cons c r => simp only [isCharDataGo, List.drop_succ_cons]; exact ih r
+
+/-- `isCharData` on `&` + reference + continuation -/
+theorem isCD_ref (body Y : List Char) (k : Nat) (hk : k = body.length + 1)
+    (href : refLen (body ++ ';' :: Y) = some k) : isCharDataGo 0 ('&' :: (body ++ ';' :: Y)) = isCharDataGo 0 Y := by
+  have h1 : ('&' == '<') = false := by decide
+  simp only [isCharDataGo, h1, Bool.false_eq_true, if_false, beq_self_eq_true, if_true, href]
+  rw [isCD_skip, hk]
+  congr 1
+  have : body ++ ';' :: Y = (body ++ [';']) ++ Y := by simp
+  rw [this]
+  have hl : (body ++ [';']).length = body.length + 1 := by simp
+  rw [← hl, drop_length_append]
+
+/-- decomposition of an accepted string at its head -/
+theorem isCD_cons (c : Char) (r : List Char) (h : isCharDataGo 0 (c :: r) = true) :
+    c ≠ '<' ∧ ((c ≠ '&' ∧ isCharDataGo 0 r = true) ∨
+      (c = '&' ∧ ∃ body rest k, r = body ++ ';' :: rest ∧ k = body.length + 1 ∧ (∀ x ∈ body, Inert x) ∧
+        (∀ Y, refLen (body ++ ';' :: Y) = some k) ∧ (∃ d, d ≠ DCh.bad ∧ ∀ Y, specRef (body ++ ';' :: Y) = some (d, k)) ∧
+        isCharDataGo 0 rest = true)) := by
+  simp only [isCharDataGo] at h
+  split at h
+  · cases h
+  · next hlt =>
+    refine ⟨by simpa using hlt, ?_⟩
+    split at h
+    · next hamp =>
+      right
+      refine ⟨by simpa using hamp, ?_⟩
+      cases hr : refLen r with
+      | none => simp [hr] at h
+      | some k =>
+        simp only [hr] at h
+        obtain ⟨body, rest, e1, e2, e3, e4, e5⟩ := refLen_some r k hr
+        refine ⟨body, rest, k, e1, e2, e3, e4, e5, ?_⟩
+        rw [isCD_skip, e1, e2] at h
+        have : body ++ ';' :: rest = (body ++ [';']) ++ rest := by simp
+        rw [this] at h
+        have hl : (body ++ [';']).length = body.length + 1 := by simp
+        rwa [← hl, drop_length_append] at h
+    · next hamp => exact Or.inl ⟨by simpa using hamp, h⟩
+
+theorem escCD_through (p Y : List Char) (hp : ∀ c ∈ p, c ≠ ']' ∧ c ≠ '>') (hne : p ≠ []) (n : Nat) :
+    escCD n (p ++ Y) = p ++ escCD 0 Y := by
+  rw [escCD_append, (escCD_pass p hp n).1, (escCD_pass p hp n).2 hne]
+
+/-- `escapeCDEnd` keeps a string acceptable to `isCharData` -/
+theorem isCD_escCD (m : Nat) : ∀ (x : List Char), x.length ≤ m → isCharDataGo 0 x = true →
+    ∀ n, isCharDataGo 0 (escCD n x) = true := by
+  induction m with
+  | zero =>
+    intro x hl _ n
+    have : x = [] := List.length_eq_zero_iff.mp (by omega)
+    subst this; rfl
+  | succ m ih =>
+    intro x hl h n
+    cases x with
+    | nil => rfl
+    | cons c r =>
+      simp only [List.length_cons] at hl
+      obtain ⟨hlt, hcase⟩ := isCD_cons c r h
+      rcases hcase with ⟨hamp, hr⟩ | ⟨rfl, body, rest, k, rfl, hk, hin, href, _, hrest⟩
+      · have q1 : (c == '<') = false := by simpa using hlt
+        have q2 : (c == '&') = false := by simpa using hamp
+        simp only [escCD]
+        split
+        · simp only [isCharDataGo, q1, q2, Bool.false_eq_true, if_false]
+          exact ih r (by omega) hr _
+        · split
+          · have := ih r (by omega) hr 0
+            simpa [isCharDataGo, refLen, refLen.refNameChar, refLen.refNameStart, isDigit] using this
+          · simp only [isCharDataGo, q1, q2, Bool.false_eq_true, if_false]
+            exact ih r (by omega) hr _
+      · have hp : ∀ c ∈ '&' :: (body ++ [';']), c ≠ ']' ∧ c ≠ '>' := by
+          intro c hc
+          simp only [List.mem_cons, List.mem_append, List.mem_nil_iff, or_false] at hc
+          rcases hc with rfl | hc | rfl
+          · decide
+          · exact ⟨(hin c hc).1, (hin c hc).2.1⟩
+          · decide
+        have e : '&' :: (body ++ ';' :: rest) = ('&' :: (body ++ [';'])) ++ rest := by simp
+        rw [e, escCD_through _ _ hp (by simp) n]
+        have e2 : ('&' :: (body ++ [';'])) ++ escCD 0 rest = '&' :: (body ++ ';' :: escCD 0 rest) := by simp
+        rw [e2, isCD_ref body _ k hk (href _)]
+        exact ih rest (by simp at hl; omega) hrest 0
+
+theorem escQuote_through (q : Char) (esc p Y : List Char) (hp : ∀ c ∈ p, c ≠ q) :
+    escQuote q esc (p ++ Y) = p ++ escQuote q esc Y := by
+  rw [escQuote_append, escQuote_id q esc p hp]
+
+/-- `EscapeAttrVal`'s replacement of the chosen quote keeps a string acceptable to `isCharData` -/
+theorem isCD_escQuote (q : Char) (esc : List Char) (hq : q = '"' ∨ q = '\'')
+    (hesc : ∀ Y, isCharDataGo 0 (esc ++ Y) = isCharDataGo 0 Y) (m : Nat) :
+    ∀ (x : List Char), x.length ≤ m → isCharDataGo 0 x = true → isCharDataGo 0 (escQuote q esc x) = true := by
+  induction m with
+  | zero =>
+    intro x hl _
+    have : x = [] := List.length_eq_zero_iff.mp (by omega)
+    subst this; rfl
+  | succ m ih =>
+    intro x hl h
+    cases x with
+    | nil => rfl
+    | cons c r =>
+      simp only [List.length_cons] at hl
+      obtain ⟨hlt, hcase⟩ := isCD_cons c r h
+      rcases hcase with ⟨hamp, hr⟩ | ⟨rfl, body, rest, k, rfl, hk, hin, href, _, hrest⟩
+      · have q1 : (c == '<') = false := by simpa using hlt
+        have q2 : (c == '&') = false := by simpa using hamp
+        simp only [escQuote]
+        split
+        · rw [hesc]; exact ih r (by omega) hr
+        · simp only [isCharDataGo, q1, q2, Bool.false_eq_true, if_false]
+          exact ih r (by omega) hr
+      · have hp : ∀ c ∈ '&' :: (body ++ [';']), c ≠ q := by
+          intro c hc
+          simp only [List.mem_cons, List.mem_append, List.mem_nil_iff, or_false] at hc
+          rcases hc with rfl | hc | rfl
+          · rcases hq with rfl | rfl <;> decide
+          · rcases hq with rfl | rfl
+            · exact (hin c hc).2.2.1
+            · exact (hin c hc).2.2.2.1
+          · rcases hq with rfl | rfl <;> decide
+        have e : '&' :: (body ++ ';' :: rest) = ('&' :: (body ++ [';'])) ++ rest := by simp
+        rw [e, escQuote_through q esc _ _ hp]
+        have e2 : ('&' :: (body ++ [';'])) ++ escQuote q esc rest = '&' :: (body ++ ';' :: escQuote q esc rest) := by simp
+        rw [e2, isCD_ref body _ k hk (href _)]
+        exact ih rest (by simp at hl; omega) hrest
+
+/-- what `isCharData` guarantees in terms of the specification decoder: no `<`, no `&` that does not start a reference -/
+theorem isCD_spec (a : Bool) (m : Nat) : ∀ (x : List Char), x.length ≤ m → isCharDataGo 0 x = true →
+    '<' ∉ x ∧ DCh.bad ∉ decodeGo a 0 x := by
+  induction m with
+  | zero =>
+    intro x hl _
+    have : x = [] := List.length_eq_zero_iff.mp (by omega)
+    subst this; simp [decodeGo]
+  | succ m ih =>
+    intro x hl h
+    cases x with
+    | nil => simp [decodeGo]
+    | cons c r =>
+      simp only [List.length_cons] at hl
+      obtain ⟨hlt, hcase⟩ := isCD_cons c r h
+      rcases hcase with ⟨hamp, hr⟩ | ⟨rfl, body, rest, k, rfl, hk, hin, _, ⟨d, hd, hspec⟩, hrest⟩
+      · obtain ⟨i1, i2⟩ := ih r (by omega) hr
+        have q2 : (c == '&') = false := by simpa using hamp
+        refine ⟨by simp [hlt.symm, i1], ?_⟩
+        simp only [decodeGo, q2, Bool.false_eq_true, if_false, List.mem_cons, not_or]
+        refine ⟨?_, i2⟩
+        split
+        · simp
+        · simp only [lit]; split <;> simp
+      · obtain ⟨i1, i2⟩ := ih rest (by simp at hl; omega) hrest
+        refine ⟨?_, ?_⟩
+        · simp only [List.mem_cons, List.mem_append, not_or]
+          refine ⟨by decide, fun hb => (hin _ hb).2.2.2.2.1 rfl, by decide, i1⟩
+        · simp only [decodeGo, beq_self_eq_true, if_true, hspec rest, List.mem_cons, not_or]
+          refine ⟨fun h => hd h.symm, ?_⟩
+          rw [decodeGo_skip, hk]
+          have : body ++ ';' :: rest = (body ++ [';']) ++ rest := by simp
+          rw [this]
+          have hl2 : (body ++ [';']).length = body.length + 1 := by simp
+          rw [← hl2, drop_length_append]
+          exact i2
+
+
+theorem hasCdEndB_eq (l : List Char) : svgCDataSub.hasCdEndB l = hasCdEnd l := by
+  induction l with
+  | nil => rfl
+  | cons c r ih => simp only [svgCDataSub.hasCdEndB, hasCdEnd, ih]; rfl
+
+theorem escQuote_noq (q : Char) (esc : List Char) (hesc : q ∉ esc) (l : List Char) : q ∉ escQuote q esc l := by
+  induction l with
+  | nil => simp [escQuote]
+  | cons c r ih =>
+    simp only [escQuote]
+    split
+    · simp [hesc, ih]
+    · next hc =>
+      simp only [List.mem_cons, not_or]
+      exact ⟨fun h => hc (by simp [h]), ih⟩
 
 end Verif.Proofs.C09Svg
